@@ -68,6 +68,16 @@ A million repetitions of "a"
     z += (w ^ x ^ y) + blk(i) + 0xCA62C1D6 + rol(v, 5);                        \
     w = rol(w, 30);
 
+#if defined(LIBEVENT_VERIF) && defined(LIBEVENT_VERIF_SHA1_TRACE)
+/* Verification hook: expose the working variables after every fifth round
+ * (when a..e are back in their canonical roles).  Off by default. */
+void libevent_verif_sha1_trace(int rounds_done, uint32_t a, uint32_t b,
+    uint32_t c, uint32_t d, uint32_t e);
+#define VERIF_SHA1_TRACE_(n) libevent_verif_sha1_trace((n), a, b, c, d, e)
+#else
+#define VERIF_SHA1_TRACE_(n)
+#endif
+
 typedef struct {
     uint32_t state[5];
     uint32_t count[2];
@@ -117,81 +127,97 @@ static void SHA1Transform(uint32_t state[5], const unsigned char buffer[64]) {
     R0(d, e, a, b, c, 2);
     R0(c, d, e, a, b, 3);
     R0(b, c, d, e, a, 4);
+    VERIF_SHA1_TRACE_(5);
     R0(a, b, c, d, e, 5);
     R0(e, a, b, c, d, 6);
     R0(d, e, a, b, c, 7);
     R0(c, d, e, a, b, 8);
     R0(b, c, d, e, a, 9);
+    VERIF_SHA1_TRACE_(10);
     R0(a, b, c, d, e, 10);
     R0(e, a, b, c, d, 11);
     R0(d, e, a, b, c, 12);
     R0(c, d, e, a, b, 13);
     R0(b, c, d, e, a, 14);
+    VERIF_SHA1_TRACE_(15);
     R0(a, b, c, d, e, 15);
     R1(e, a, b, c, d, 16);
     R1(d, e, a, b, c, 17);
     R1(c, d, e, a, b, 18);
     R1(b, c, d, e, a, 19);
+    VERIF_SHA1_TRACE_(20);
     R2(a, b, c, d, e, 20);
     R2(e, a, b, c, d, 21);
     R2(d, e, a, b, c, 22);
     R2(c, d, e, a, b, 23);
     R2(b, c, d, e, a, 24);
+    VERIF_SHA1_TRACE_(25);
     R2(a, b, c, d, e, 25);
     R2(e, a, b, c, d, 26);
     R2(d, e, a, b, c, 27);
     R2(c, d, e, a, b, 28);
     R2(b, c, d, e, a, 29);
+    VERIF_SHA1_TRACE_(30);
     R2(a, b, c, d, e, 30);
     R2(e, a, b, c, d, 31);
     R2(d, e, a, b, c, 32);
     R2(c, d, e, a, b, 33);
     R2(b, c, d, e, a, 34);
+    VERIF_SHA1_TRACE_(35);
     R2(a, b, c, d, e, 35);
     R2(e, a, b, c, d, 36);
     R2(d, e, a, b, c, 37);
     R2(c, d, e, a, b, 38);
     R2(b, c, d, e, a, 39);
+    VERIF_SHA1_TRACE_(40);
     R3(a, b, c, d, e, 40);
     R3(e, a, b, c, d, 41);
     R3(d, e, a, b, c, 42);
     R3(c, d, e, a, b, 43);
     R3(b, c, d, e, a, 44);
+    VERIF_SHA1_TRACE_(45);
     R3(a, b, c, d, e, 45);
     R3(e, a, b, c, d, 46);
     R3(d, e, a, b, c, 47);
     R3(c, d, e, a, b, 48);
     R3(b, c, d, e, a, 49);
+    VERIF_SHA1_TRACE_(50);
     R3(a, b, c, d, e, 50);
     R3(e, a, b, c, d, 51);
     R3(d, e, a, b, c, 52);
     R3(c, d, e, a, b, 53);
     R3(b, c, d, e, a, 54);
+    VERIF_SHA1_TRACE_(55);
     R3(a, b, c, d, e, 55);
     R3(e, a, b, c, d, 56);
     R3(d, e, a, b, c, 57);
     R3(c, d, e, a, b, 58);
     R3(b, c, d, e, a, 59);
+    VERIF_SHA1_TRACE_(60);
     R4(a, b, c, d, e, 60);
     R4(e, a, b, c, d, 61);
     R4(d, e, a, b, c, 62);
     R4(c, d, e, a, b, 63);
     R4(b, c, d, e, a, 64);
+    VERIF_SHA1_TRACE_(65);
     R4(a, b, c, d, e, 65);
     R4(e, a, b, c, d, 66);
     R4(d, e, a, b, c, 67);
     R4(c, d, e, a, b, 68);
     R4(b, c, d, e, a, 69);
+    VERIF_SHA1_TRACE_(70);
     R4(a, b, c, d, e, 70);
     R4(e, a, b, c, d, 71);
     R4(d, e, a, b, c, 72);
     R4(c, d, e, a, b, 73);
     R4(b, c, d, e, a, 74);
+    VERIF_SHA1_TRACE_(75);
     R4(a, b, c, d, e, 75);
     R4(e, a, b, c, d, 76);
     R4(d, e, a, b, c, 77);
     R4(c, d, e, a, b, 78);
     R4(b, c, d, e, a, 79);
+    VERIF_SHA1_TRACE_(80);
     /* Add the working vars back into context.state[] */
     state[0] += a;
     state[1] += b;
